@@ -1,5 +1,6 @@
 #!/bin/bash
-# proc_seed.sh <id> <n> [tier] : confirm a delivered seeded change, store it, run the check
+# proc_seed.sh <id> <n> [tier] : confirm a delivered seeded change (scratch worktree),
+# store it under seeded/<id>/<n>/, run the property's check against it in isolation.
 id=$1; n=$2; tier=${3:-quick}
 cd /verif
 out=$(./seedconfirm.sh /tmp/mut/${id}_$n/out 2>&1)
@@ -9,4 +10,5 @@ case "$out" in
   *) echo "NOT CONFIRMED $id $n"; exit 1;;
 esac
 mkdir -p seeded/$id/$n; cp /tmp/mut/${id}_$n/out/* seeded/$id/$n/
-./seedtest.sh seeded/$id/$n "$tier"
+git -C /repo worktree remove --force /tmp/mut/${id}_$n/wt 2>/dev/null
+tools/seediso.sh seeded/$id/$n "$tier"
